@@ -166,12 +166,12 @@ def make_defaults(fc, given):
     return defaults
 
 
-SPARSE_KEYS = [0, 1, 2, 5, 6]          # a sparse table with a hole at 3..4
+SPARSE_KEYS = [0, 1, 2, 3, 6, 7]       # a sparse table with a hole at 4..5 (and four contiguous cells before it)
 
 
-def make_sparse(fc, want_exception):
+def make_sparse(fc, want_exception, shape=1):
     """the addressed table is a ModbusSparseDataBlock with a hole; model: a range is valid iff every cell exists"""
-    L = body_len(fc, 1)
+    L = body_len(fc, shape)
 
     def sparse(v: List[int], b: bytes) -> bool:
         from pymodbus.factory import ServerDecoder
@@ -220,7 +220,8 @@ def make_sparse(fc, want_exception):
                 exp = exp + regfile.be16(before[addr + i])
             return same(got, exp, "read response") and same(dict(blk.values), before, "sparse table after a read")
         after = dict(before)
-        after[addr] = regfile.u16(b, 5)
+        for i in range(qty):
+            after[addr + i] = regfile.u16(b, 5 + 2 * i)
         return same(got, bytes([16]) + b[0:4], "write response") and same(dict(blk.values), after, "sparse table after the write")
     return sparse
 
@@ -281,10 +282,11 @@ def step_obligations(tier, want_exception, prefix):
 def extra_obligations(tier, want_exception, prefix):
     T = 120 if tier == "quick" else 900
     out = []
-    for fc in (3, 16):
-        out.append(Obl("%s.sparse.fc%d" % (prefix, fc), make_sparse(fc, want_exception), timeout=T,
-                       bounds="holding registers = sparse block with cells %s (hole at 3..4), symbolic contents; fc %d, address 0..8, quantity symbolic; %s requests" % (
-                           SPARSE_KEYS, fc, "rejected" if want_exception else "valid")))
+    for fc, shape in ((3, 1), (16, 1), (16, 4)):
+        # (a 4-register write can span the hole with both of its end cells present)
+        out.append(Obl("%s.sparse.fc%d%s" % (prefix, fc, "" if shape == 1 else "[%d]" % shape), make_sparse(fc, want_exception, shape), timeout=T,
+                       bounds="holding registers = sparse block with cells %s (hole at 4..5), symbolic contents; fc %d%s, address 0..8, quantity symbolic; %s requests" % (
+                           SPARSE_KEYS, fc, "" if fc == 3 else " carrying %d register(s)" % shape, "rejected" if want_exception else "valid")))
     return out
 
 
